@@ -107,6 +107,12 @@ CLAIMS.update({
                     "matching records, newest first, truncated at the limit). The state-condition defects found in FindLatest were repaired (fix: 6390ea9).",
             "note": "Partial: persistent backends, crash points, Export/Import, MTime ranges are outside the claim. Trusted: go/ssa, symgo, z3.",
             "technique": TECH_FORK, "design_ref": "DESIGN.md section 4 (C17)"},
+    "C09": {"text": "Single-message kernel only: the real Client.RemoteUpdate / RemoteUpdateMutations / clockUpdate / clockUpdateMutations / clockFromUpdate on one delivered "
+                    "push against a mirror that is in sync or visibly drifted: afterwards the mirror holds exactly the clocks the message was derived for, or a full sync was "
+                    "requested, and a wrong clock is never applied silently. RemoteUpdate dropping the resync was found this way and repaired (fix commit in known_findings.json).",
+            "note": "Partial: liveness, ordering of pushes / replies / syncs, reconnects and the network machine's own processing are outside the claim (network, goroutines). "
+                    "Overrides: NetworkMachine.updateClock and Client.Sync are recording stubs. Trusted: go/ssa, symgo, z3.",
+            "technique": TECH_FORK, "design_ref": "DESIGN.md section 4 (C09)"},
 })
 
 NA = {
